@@ -42,7 +42,7 @@ CLAIMS["C07"] = {
             "old stream in flight and close() never drives the parser at a record boundary (R7.7), pending management replies are drained by exactly the "
             "count the transport accepted so none is sent twice before the epilogue (R7.8); close() reads the writeable flag only after it awaited writeable() (R7.3); "
             "in the async read interfaces nothing that can return Pending / Err runs between a productive parse and returning its count, and transport counts reach "
-            "Parser::parse before any return, so a delayed write side cannot make the handler lose input (R7.9 = R9.3 / R9.7). Does NOT decide byte-level output "
+            "Parser::parse before any return, so a delayed write side cannot make the handler lose input (R7.9 = R9.3 / R9.7); close() gives up the request's own hold on the output lock on every path before it asks for sole ownership of the output (R7.10, must-dataflow), so a request closed right after a write cannot time out on itself. Does NOT decide byte-level output "
             "correctness per transport split, nor that the handler sees exactly the request's environment/streams beyond these necessary conditions (C01/C02/C09).",
     "note": "Parser APIs are events with their documented meaning; make_request_epilogue's own encoding is C17's subject.",
     "design_ref": "DESIGN.md §4 C07",
@@ -96,7 +96,7 @@ CLAIMS["C17"] = {
             "equal the FastCGI specification (R17.1); From<ExitStatus> equals the documented table and ABORT == Complete(b\"ABRT\") (R17.2); "
             "each to_record places a {V1, own type, id, 8, 0} header before its body (R17.3); the end-of-request sequence is (empty stream "
             "header)* EndRequest(status,id) (R17.4); write_response emits one GetValuesResult for id 0 with config.max_conns / \"0\", appended "
-            "after existing contents, and RESPONSE_LEN covers the maximum by constant arithmetic (R17.5); the padding rule is {0, 8-r} (R17.6); "
+            "after existing contents, on every return path (the empty subset included), and RESPONSE_LEN covers the maximum by constant arithmetic (R17.5); the padding rule is {0, 8-r} (R17.6); "
             "to_bytes/from_bytes of the four wire structs agree with each other and the spec layout, big-endian (R17.7); the version is "
             "validated before the type (R17.8); the stream list of the end-of-request sequence sent by Request::close is chosen from the writeable flag "
             "only after close() made the request writeable (R17.9 = R7.3), so it is the role's output streams; the integer conversions the layouts go through "
@@ -215,7 +215,7 @@ CLAIMS["C05"] = {
             "and hand over (buffer, n) with the unparsed input [raw_start, free_start) located at [0, n) of the buffer (E8 region tracking through discard and "
             "compaction, whatever their spelling); the request parser's constructor stores that length and starts in the initial state (R5.3); the "
             "request parser's compaction - in move_input, or written out in parse - leaves the drive's remainder at [0, input_len) (R5.4, E8); in the async layer close() never drives the stream parser while it stands at a record boundary, where buffered bytes belong to "
-            "the next request (R5.5, must-dataflow on the event graph); parse() accounts for new_input on every return path, final states included (R5.6 = R3.2); unread records are skipped with exact arithmetic for any amount of look-ahead (R5.7 = R3.11 for into_skip / SkipState::drive). Does NOT decide the behavioural consequence (k sequential requests == k separate connections).",
+            "the next request (R5.5, must-dataflow on the event graph); parse() accounts for new_input on every return path, final states included (R5.6 = R3.2); unread records are skipped with exact arithmetic for any amount of look-ahead (R5.7 = R3.11 for into_skip / SkipState::drive); a finished request parser may be fed look-ahead up to a full buffer without becoming a failed one (R5.8 = R6.2). Does NOT decide the behavioural consequence (k sequential requests == k separate connections).",
     "note": "copy_within / Vec::truncate semantics of std trusted.",
     "design_ref": "DESIGN.md §4 C05",
 }
@@ -291,7 +291,7 @@ CLAIMS["C01"] = {
             "are {own id & empty => done, own id & data => continue with (content_length, padding_length), else untouched} (R1.4); across "
             "all framing implementations a payload counter is only assigned the header's content_length, itself minus a consumed amount, "
             "or 0, and a padding counter likewise from padding_length (R1.5); the buffer really has at least the configured size the statement's "
-            "premise speaks of (R1.6); the framing code and the pair decoder agree on how many bytes of a pair that crosses a record boundary went into the pair buffer (R1.7 = R6.4 + R6.5); the request parser for the next request of a kept connection starts at the unread input (R1.8 = R5.3). Does NOT decide equality of the decoded map for every record "
+            "premise speaks of (R1.6); the framing code and the pair decoder agree on how many bytes of a pair that crosses a record boundary went into the pair buffer (R1.7 = R6.4 + R6.5); the request parser for the next request of a kept connection starts at the unread input (R1.8 = R5.3); look-ahead fed to a parser that is already done does not replace the decoded request with StuckOnInput (R1.9 = R6.2). Does NOT decide equality of the decoded map for every record "
             "cut / read cut / buffer size: the cross-record reassembly arithmetic (parse_buffered, try_fill!) is value-level.",
     "note": "Name-value decoding itself is C16's subject; case-insensitive lookup is C19's.",
     "design_ref": "DESIGN.md §4 C01",
